@@ -250,6 +250,15 @@ fn third_case() -> BoxedStrategy<ThirdCase> {
     prop_oneof![2 => helper, 2 => framed, 2 => from_custom, 4 => pkt].boxed()
 }
 
+/// `check_packet::<Custom<PT, MIN>>` over every length field: zero-bodied images up to 256 KiB
+fn c19_len_oracle(c: &super::parse::LenCase, st: &mut Stats) -> Verdict {
+    // the packet type of the case selects the family member; the image carries that member's type
+    let family = c.pt as usize % CUSTOM_FAMILY.len();
+    let mut c = c.clone();
+    c.pt = CUSTOM_FAMILY[family].0;
+    frame(family, &c.bytes().0, st)
+}
+
 pub fn c19(tier: Tier) -> Check {
     Check {
         property: "C19",
@@ -260,6 +269,7 @@ pub fn c19(tier: Tier) -> Check {
                every Custom field intact after direct parse, Packet::try_as, Unknown::try_as and compound-parse -> Unknown -> try_as; non-trivial = padding, count > 0, or embedded in a compound",
         assumptions: vec!["the third-party family (harness/src/third_party.rs) is written the way /repo/tests/custom_packet.rs shows a downstream user doing it"],
         legs: vec![
+            super::parse::len_leg(tier, c19_len_oracle),
             Box::new(RandomLeg { name: "random-third-party", cases: tier.pick(120_000, 3_000_000), make: Box::new(third_case), oracle: c19_oracle }),
             Box::new(SweepLeg {
                 name: "helpers-padding-x-count-x-family",
